@@ -290,7 +290,7 @@ def rule_f5(chk: Check, ir, ix: Index, F):
                                 if kw.arg == "value" and norm_stmt(kw.value) == f"{it.name}.string":
                                     raw = True
                     chk.count("F5-text-decoding")
-                    chk.require(not raw or post, "F5-text-decoding", f"{r.name}#alt{i}:FSTRING_MIDDLE", str(a.pos),
+                    chk.require(not raw or post, "F5-text-decoding", f"{r.name}:FSTRING_MIDDLE", str(a.pos),
                                 "the token text becomes Constant.value as scanned: escapes are not decoded (`f\"a\\nb\"` gives "
                                 "'a\\\\nb', CPython 'a\\nb' with a real newline) and nothing later walks the parts")
     if not n_mid:
@@ -327,7 +327,7 @@ def rule_f5(chk: Check, ir, ix: Index, F):
                     if any(isinstance(x, ast.Name) and x.id in dbg for x in ast.walk(arg)):
                         uses += 1
         chk.count("F6-debug-text")
-        chk.require(uses > 0, "F6-debug-text", f"fstring_replacement_field#alt{i}", str(a.pos),
+        chk.require(uses > 0, "F6-debug-text", f"fstring_replacement_field:debug", str(a.pos),
                     f"the `=` of a debug field (`{dbg[0]}`) only selects the conversion; the source text of the expression is not "
                     f"emitted: `f\"{{x=}}\"` gives [FormattedValue(x, 'r')], CPython [Constant('x='), FormattedValue(x, 'r')]")
     if not n_dbg:
